@@ -1,6 +1,7 @@
 import PlushModel
 import PlushProofs.Props.C20
 import PlushProofs.Lib.OutTagRender
+import PlushProofs.Lib.IdentTag
 /-!
   C01 — string data is always HTML-escaped on output; only trusted HTML is verbatim.
   `Gen.writeCases` is TRANSLATED from the type switch of `compiler.write`; `writeVal` is its model on the
@@ -118,5 +119,30 @@ theorem C01_string_literal_output_is_escaped_end_to_end (c : Bytes) (hno : ∀ x
     ∃ out, (renderTop (LX.outTagSrc c) data heap feeder).1 = .ok out ∧ out = htmlEscape c
       ∧ ∀ x ∈ out, x ≠ 60 ∧ x ≠ 62 ∧ x ≠ 39 ∧ x ≠ 34 :=
   ⟨htmlEscape c, renderTop_outTag c hno data heap feeder, rfl, C20_html_no_specials c⟩
+
+/-- **END TO END, DATA TO OUTPUT: a Go string bound in the context comes out escaped.** For every lower-case name that is
+    not a keyword, every string value `v` (any bytes at all), every store, context and fuel: when `name` is bound to `v` in
+    the context the render runs in, the template `<%=name%>` renders to exactly `htmlEscape v`, that output contains none of
+    `<` `>` `'` `"`, and the evaluator state is left as it was. Lexer (E_START, IDENT, E_END), parser (one output statement
+    holding the identifier), evaluator (lookup in the current context) and sink (escaped chunk) composed. -/
+theorem C01_string_data_is_escaped_end_to_end (name v : Bytes) (hn : LX.LowerName name)
+    (hkw : LX.lookupIdent name = .IDENT) (fuel ctx : Nat) (s : ES)
+    (hhas : s.store.has ctx name = true) (hval : s.store.value ctx name = .str v) :
+    renderIn (fuel + 5) (LX.identTagSrc name) ctx s = (.ok (htmlEscape v), s)
+      ∧ ∀ x ∈ htmlEscape v, x ≠ 60 ∧ x ≠ 62 ∧ x ≠ 39 ∧ x ≠ 34 :=
+  ⟨render_identTag_str name v hn hkw fuel ctx s hhas hval, C20_html_no_specials v⟩
+
+/-- … and a `template.HTML` value bound to the same name comes out verbatim: the sink distinguishes the two by the VALUE's
+    type, nothing in the template does -/
+theorem C01_trusted_html_is_verbatim_end_to_end (name v : Bytes) (hn : LX.LowerName name)
+    (hkw : LX.lookupIdent name = .IDENT) (fuel ctx : Nat) (s : ES)
+    (hhas : s.store.has ctx name = true) (hval : s.store.value ctx name = .html v) :
+    renderIn (fuel + 5) (LX.identTagSrc name) ctx s = (.ok v, s) :=
+  render_identTag_html name v hn hkw fuel ctx s hhas hval
+
+/-- non-vacuity: `user` is a lower-case name and not a keyword; its template is `<%=user%>` -/
+example : LX.LowerName [117, 115, 101, 114] ∧ LX.lookupIdent [117, 115, 101, 114] = .IDENT
+    ∧ LX.identTagSrc [117, 115, 101, 114] = [60, 37, 61, 117, 115, 101, 114, 37, 62] :=
+  ⟨⟨by decide, by decide⟩, by decide, by decide⟩
 
 end Plush
